@@ -3,7 +3,8 @@
    Written from the property statement and the Wishbone B4 classic / registered-feedback rules:
      * an ACCESS starts in the first cycle with CYC & STB after reset / an acknowledge / an abort, and lasts until the
        slave's ACK is sampled with CYC & STB (rule 3.35: ACK answers CYC & STB; 3.60: the master keeps STB and the
-       qualified signals ADR, WE, SEL, DAT_O, CTI stable until then);
+       qualified signals ADR, WE, SEL, DAT_O, CTI stable until then);  CTI is a per-access HINT: the property quantifies over
+       all sequences of (address, sel, we, CTI), so nothing is assumed about the access that follows a CTI=010 beat;
      * an access is ABORTED when the master negates CYC/STB before the acknowledge;
      * C10: every non-aborted access is acknowledged exactly once (an access still open after cfg.bound cycles is reported
        by the driver as TIMEOUT and is a violation; a second acknowledge would terminate -- and is judged as -- the next
@@ -41,8 +42,6 @@ WbStep(cfg, s, e, gap) ==        \* -> [s |-> state, bad |-> set of diagnostics,
         envC == IF s.pend /\ ~drop /\ WbProj(e) # s.acc
                 THEN {<<"ENV: master changed ADR/WE/SEL/DAT/CTI while waiting for the acknowledge">>} ELSE {}
         new  == act /\ ~s1.pend
-        envB == IF new /\ s1.burst /\ ~(e.a = s1.acc.a + 1 /\ e.we = s1.acc.we)
-                THEN {<<"ENV: beat after CTI=010 is not the next address / same direction">>} ELSE {}
         envA == IF new /\ (e.a < cfg.base) THEN {<<"ENV: address below the base address">>} ELSE {}
         s2   == IF new THEN [s1 EXCEPT !.pend = TRUE, !.acc = WbProj(e)] ELSE s1
         base == WbBase(cfg, s2.acc.a)
@@ -52,15 +51,15 @@ WbStep(cfg, s, e, gap) ==        \* -> [s |-> state, bad |-> set of diagnostics,
           IF s2.acc.we = 1 THEN
              [s |-> [s2 EXCEPT !.pend = FALSE, !.burst = (s2.acc.cti = 2),
                                !.mem = BmWrite(s2.mem, base, cfg.wb, s2.acc.sel, s2.acc.d)],
-              bad |-> envC \cup envB \cup envA, tags |-> t1 \cup {"ack-write"} \cup (IF new THEN {"ack-same-cycle"} ELSE {})]
+              bad |-> envC \cup envA, tags |-> t1 \cup {"ack-write"} \cup (IF new THEN {"ack-same-cycle"} ELSE {})]
           ELSE LET wrong == BmWrongLanes(s2.mem, base, cfg.wb, s2.acc.sel, e.q) IN
              [s |-> [s2 EXCEPT !.pend = FALSE, !.burst = (s2.acc.cti = 2),
                                !.mem = BmResolve(s2.mem, base, cfg.wb, s2.acc.sel, e.q)],
-              bad |-> envC \cup envB \cup envA \cup
+              bad |-> envC \cup envA \cup
                       {<<"read acknowledge does not carry the bytes last written", WbCtx(s2), s2.acc.a, k,
                          e.q[k + 1], BmGet(s2.mem, base + k)>> : k \in wrong},
               tags |-> t1 \cup {"ack-read"} \cup (IF new THEN {"ack-same-cycle"} ELSE {})]
-       ELSE [s |-> s2, bad |-> envC \cup envB \cup envA,
+       ELSE [s |-> s2, bad |-> envC \cup envA,
              tags |-> t1 \cup (IF e.ack = 1 THEN {"ack-without-access"} ELSE {})]
   [] e.c = "TIMEOUT" ->
        [s |-> [s EXCEPT !.pend = FALSE, !.burst = FALSE],
